@@ -204,6 +204,17 @@ func (s *Solver) Pop() {
 	s.Send("(pop 1)")
 }
 
+// Reset clears the solver state (incremental mode) and restores the options.
+func (s *Solver) Reset() {
+	s.raw("(reset)")
+	if s.Name != "cvc5" {
+		s.raw(fmt.Sprintf("(set-option :timeout %d)", s.TimeoutMs))
+		s.raw("(set-option :model.completion true)")
+	} else {
+		s.raw("(set-logic ALL)")
+	}
+}
+
 func (s *Solver) replay() {
 	s.raw("(reset)")
 	if s.Name != "cvc5" {
